@@ -1,7 +1,7 @@
 /-
   Driver op for C19 (one op = one observed scenario):
 
-    c19 <tag> <mode> <N> <keys: hex,hex,…> <initial owner per key: n,n,…> <event> <event> …
+    c19 <tag> <mode[?]> <N> <keys: hex,hex,…> <initial owner per key: n,n,…> <event> <event> …
 
   events (global order of the cluster double's mutex):
     P:<bid>:<cmd>:<key idx>:<node>   client Put, with the route the real batcher chose
@@ -15,7 +15,8 @@
     U:<bid>:<cmd>                    after a failed batch: <cmd> was never sent (node object closed)
     X                                sender retries after a failed batch (new segment)
 
-  output:  "<tag> accept" then per node "<tag> n<i> <cmd>:<out>,…" and per key
+  output:  "<tag> accept", for plain modes "<tag> quiet true|false" (is the theorem's `QuietRun`
+           hypothesis met by this run? omitted when the mode ends in "?": adversarial corpus), then per node "<tag> n<i> <cmd>:<out>,…" and per key
            "<tag> k<i> <executed ids>"; or "<tag> reject <reason> <where>".
   The trace is replayed through `ClusterRoute.step` / `tstep`; every node answer
   in the trace must be the model's `answer`.
@@ -70,6 +71,7 @@ structure PAcc where
   st : St
   keyOf : List (Nat × Key) := []        -- cmd id ↦ key (from the puts)
   nodeLog : List (Node × String) := []
+  quiet : Bool := true                  -- `QuietRun` so far (decidable form, evaluated on the observed run)
 
 def plainEv (acc : PAcc) (p : List String) : Option Ev :=
   match p with
@@ -96,7 +98,7 @@ def whereOf (e : Ev) (i : Nat) : String :=
   | .put _ c _ => toString c.id
   | _ => s!"@{i}"
 
-def runPlain (ctx : Ctx) (tag : String) (n : Nat) (toks : List String) : List String :=
+def runPlain (ctx : Ctx) (tag : String) (n : Nat) (showQuiet : Bool) (toks : List String) : List String :=
   let rec go (acc : PAcc) (i : Nat) : List String → Except String PAcc
     | [] => .ok acc
     | t :: ts =>
@@ -106,6 +108,9 @@ def runPlain (ctx : Ctx) (tag : String) (n : Nat) (toks : List String) : List St
         match step ctx.slotOf acc.st e with
         | .error m => .error s!"{m} {whereOf e i}"
         | .ok st' =>
+          let acc : PAcc := match e with
+            | .mig m => { acc with quiet := acc.quiet && quietStepB ctx.slotOf acc.st m }
+            | _ => acc
           let acc' : PAcc := match e with
             | .put _ c _ => { acc with st := st', keyOf := (c.id, c.key) :: acc.keyOf }
             | .srv nd c _ o => { acc with st := st', nodeLog := acc.nodeLog ++ [(nd, s!"{c.id}:{showOut o}")] }
@@ -116,6 +121,7 @@ def runPlain (ctx : Ctx) (tag : String) (n : Nat) (toks : List String) : List St
   | .ok acc =>
     let all := (acc.st.hist ++ [acc.st.log]).flatten
     [s!"{tag} accept"]
+      ++ (if showQuiet then [s!"{tag} quiet {acc.quiet}"] else [])
       ++ (List.range n).map (fun nd =>
             s!"{tag} n{nd} {joinOr ((acc.nodeLog.filter (·.1 == nd)).map (·.2))}")
       ++ (List.range ctx.keys.size).map (fun k =>
@@ -182,32 +188,43 @@ def runTxn (ctx : Ctx) (tag : String) (n : Nat) (toks : List String) : List Stri
 
 def parseCsv (s : String) : List String := if s == "." then [] else s.splitOn ","
 
-/-! sender decision table:  c19o <tag> <txnCluster 0|1> <pipeline 0|1> <class none|redirect|crossslot|other>
-    (the class of error every `sendFuncOnce` call of the failing batch returns)
+/-! sender decision table:
+      c19o <tag> <txnCluster 0|1> <pipeline 0|1> <class none|redirect|crossslot|other> <send|recv> <once|always>
+    class  = the error class the failing batch produces; `always` = every attempt of it fails (state of
+             the cluster), `once` = only the first (injected fault);
+    send   = the error is returned by sendFuncOnce (Exec / Dispatch): `sendFunc` decides;
+    recv   = it is read by the pipelined receiver goroutine: `recvFinal`, no re-send
     →  "<tag> resends=<n> final=<eof|typology|break|other>" -/
-def senderLine (tag txn pipe cls : String) : String :=
+def senderLine (tag txn pipe cls path pers : String) : String :=
   let m : ClusterSender.SMode := ⟨txn == "1", pipe == "1"⟩
-  let outs : List (Option ClusterSender.SErr) :=
-    if cls == "redirect" then List.replicate 6 (some .redirect)
-    else if cls == "crossslot" then List.replicate 6 (some .crossslot)
-    else if cls == "other" then List.replicate 6 (some .other)
-    else [none]
-  let (n, f) := ClusterSender.sendFunc m outs 0
-  let fs := match f with
+  let e? : Option ClusterSender.SErr :=
+    if cls == "redirect" then some .redirect
+    else if cls == "crossslot" then some .crossslot
+    else if cls == "other" then some .other
+    else none
+  let showF : ClusterSender.Final → String
     | .ok => "eof"
     | .typology => "typology"
     | .brk => "break"
     | .other => "other"
-  s!"{tag} resends={n - 1} final={fs}"
+  match e? with
+  | none => s!"{tag} resends=0 final=eof"
+  | some e =>
+    if path == "recv" then s!"{tag} resends=0 final={showF (ClusterSender.recvFinal m e)}"
+    else
+      let outs : List (Option ClusterSender.SErr) :=
+        if pers == "once" then [some e, none] else List.replicate 6 (some e)
+      let (n, f) := ClusterSender.sendFunc m outs 0
+      s!"{tag} resends={n - 1} final={showF f}"
 
 def handle : List String → Option (List String)
-  | ["c19o", tag, txn, pipe, cls] => some [senderLine tag txn pipe cls]
+  | ["c19o", tag, txn, pipe, cls, path, pers] => some [senderLine tag txn pipe cls path pers]
   | "c19" :: tag :: mode :: n :: keys :: own :: evs =>
     match nat? n, (parseCsv keys).mapM Hex.decode, (parseCsv own).mapM nat? with
     | some n, some ks, some ow =>
       let ctx : Ctx := ⟨ks.toArray, ow.toArray⟩
-      if mode == "txn" || mode == "txnpipe" then some (runTxn ctx tag n evs)
-      else some (runPlain ctx tag n evs)
+      if mode == "txn" || mode == "txnpipe" || mode == "txn?" || mode == "txnpipe?" then some (runTxn ctx tag n evs)
+      else some (runPlain ctx tag n (!mode.endsWith "?") evs)
     | _, _, _ => some [s!"{tag} bad-op"]
   | _ => none
 
